@@ -99,6 +99,18 @@ def do_replay(mod, path):
     if setup:
         setup()
     case = doc['case']
+    if doc.get('hang'):
+        verdict = core.run_isolated(mod, case, timeout_s=60.0)
+        print(f'replay: property={doc["property"]} recorded_class={doc["class"]} isolated run -> {verdict[0]} {verdict[1] or ""}')
+        if verdict[0] == 'no-answer':
+            print('REPRODUCED (the run never returns; its process was killed after 60 s)')
+            print(f'VIOLATION property={doc["property"]} replay={path}')
+            return 1
+        if verdict[0] == 'done' and verdict[1]:
+            print(f'VIOLATION property={doc["property"]} replay={path}')
+            return 1
+        print('NOT-REPRODUCED (the recorded run returns on this tree)')
+        return 0
     res = core.run_one(mod, case)
     classes = [v['cls'] for v in res['viol']]
     print(f'replay: property={doc["property"]} recorded_class={doc["class"]} observed_classes={classes} '
@@ -160,6 +172,31 @@ def determinism_selftest(mod, tier, root, agg, n=6):
             'modes': ['forked worker vs. parent process', 'fresh interpreter, PYTHONHASHSEED=4242']}
 
 
+def regenerate(mod, tier, root, key):
+    try:
+        if key[0] == 's':
+            seed = core.derive(root, mod.PROP, key[1])
+            c = mod.gen_case(random.Random(seed), tier)
+            c['_seed'] = seed
+            return c
+        if key[0] == 'u':
+            units = mod.sweep_units(tier, root)
+            for j, c in enumerate(mod.expand_unit(units[key[1]])):
+                if j == key[2]:
+                    return c
+    except Exception:   # noqa
+        return None
+    return None
+
+
+def mark_hang(path):
+    with open(path) as f:
+        doc = json.load(f)
+    doc['hang'] = True
+    with open(path, 'w') as f:
+        json.dump(doc, f, indent=1, default=core._json_default, sort_keys=True)
+
+
 def history_before(mod, tier, root, order_key, case):
     """The cases a worker executed before `case` within the same task (seeded batch or sweep unit)."""
     try:
@@ -197,6 +234,29 @@ def do_check(mod, modname, args, root):
     units = mod.sweep_units(tier, root) if hasattr(mod, 'sweep_units') else []
     agg = core.run_batch(modname, tier, root, n_runs=cfg['runs'], budget_s=cfg['budget'],
                          workers=args.workers, units=units)
+    stuck_reported = []
+    if getattr(agg, 'stuck', None):
+        # runs that kept a worker busy until the batch's hard timeout: each is confirmed in a process of its own
+        for key in sorted(set(agg.stuck)):
+            case = regenerate(mod, tier, root, key)
+            if case is None:
+                continue
+            verdict = core.run_isolated(mod, case, timeout_s=60.0)
+            if verdict[0] == 'no-answer':
+                cls = f'{mod.PROP}:no-answer-process-killed'
+                doc_case = dict(case)
+                path = core.write_replay(mod.PROP, cls, doc_case,
+                                         {'msg': 'the run never returned: the process serving it had to be killed after 60 s '
+                                                 '(an endless loop or runaway computation that cannot be interrupted from inside)',
+                                          'detail': {'order_key': list(key)}}, 'no-answer', original_case=case)
+                mark_hang(path)
+                print(f'violation class={cls}: run {key} never returned, its process had to be killed')
+                print(f'VIOLATION property={mod.PROP} replay={path}')
+                stuck_reported.append({'class': cls, 'replay': path, 'message': 'never returned', 'shrink_steps': 0})
+        if not stuck_reported:
+            print(f'HARNESS-ERROR property={mod.PROP} no worker finished within the hard timeout and none of the suspect runs '
+                  f'{sorted(set(agg.stuck))[:4]} reproduces as a run that never returns')
+            return 2
     if agg.errors:
         for e in agg.errors[:3]:
             print('HARNESS-ERROR', e[:3000])
@@ -219,8 +279,8 @@ def do_check(mod, modname, args, root):
                 alternatives[cls].append((order_key, case, v))
         else:
             by_cls[cls] = (order_key, case, v)
-    exit_code = 0
-    reported = []
+    exit_code = 1 if stuck_reported else 0
+    reported = list(stuck_reported)
     known_matched = []
     t_min_budget = max(10.0, min(60.0, cfg['budget'] * 0.5)) / max(1, len(by_cls))
     unreproducible = []
